@@ -6,7 +6,7 @@ import torch
 
 EVIDENCE = dict(
     bounds="scalar kernel: every finite x and every finite positive scale whose grid {s*v} is representable in the working dtype (s*max|v| finite; for float8 additionally s*min_subnormal8 >= 2 ulp_min(dtype) in the re-quantization clause), dtypes float16/bfloat16/float32, qtypes qint8/qfloat8_e4m3fn/qfloat8_e5m2; float8 nearest-grid clause split over every binade of the 8-bit format; tensor plumbing: shapes of rank 1..4 with dims <= 3 (covering subset in quick), contiguous/transposed/step-2, axis in {None,0,-1}; conversion chain (BIT, float8 qtypes): every finite value of the working dtype inside the float8 range as the quotient fl(x/s)",
-    outside="shapes beyond rank 4 / dim 3; CUDA/MPS kernels; scales whose grid is not representable in the working dtype (no implementation can return those grid points); bfloat16 re-quantization (excluded by the property); float32 bit-exact (BIT) re-quantization - float32 is carried by RERR",
+    outside="shapes beyond rank 4 / dim 3 other than those derived from integer size thresholds (24..512) found in the current quantizer/optimizer source; CUDA/MPS kernels; scales whose grid is not representable in the working dtype (no implementation can return those grid points); bfloat16 re-quantization (excluded by the property); float32 bit-exact (BIT) re-quantization - float32 is carried by RERR",
     assumptions=[
         "RERR: standard model of IEEE arithmetic (|e|<=2^-p relative, |d|<=2^(emin-p) absolute per operation); unsat is a proof for all executions without overflow, overflow is covered by the BIT saturation/finiteness clauses",
         "the PyTorch float->float8 cast returns a nearest grid point of its input (validated on every executed cast under the seed and exhaustively against torch for all 2^16 float16 and bfloat16 inputs by symt/conformance.py in every run)",
@@ -43,6 +43,11 @@ def cases(tier, seed):
             out.append(dict(kind="requant", dtype=dt, qtype=q, tier=tier))
     out.append(dict(kind="conformance"))
     shapes = _shapes(tier)
+    # shapes just above the integer size thresholds of the CURRENT quantizer source (empty on the pinned tree): a blocked, chunked
+    # or fast path that starts beyond the default bounds is entered as well
+    from . import wq
+
+    shapes = list(shapes) + [s for s in wq.quantizer_threshold_shapes(hi=512) if s not in shapes]
     n = 4 if tier == "quick" else 9
     for dt in ("float16", "bfloat16", "float32") if tier == "thorough" else ("float16", "float32"):
         for q in QT:
